@@ -65,6 +65,8 @@ pub fn chaos_case(ctx: &Ctx, case: u64, acc: &mut Acc, opts: &ChaosOpts) -> Resu
     let mut net: Vec<(Id, Vec<u8>, usize)> = vec![]; // (dst, bytes, sender's mps)
     let mut st = ChaosStats::default();
     let mut item_tag = 0u32;
+    let want_sample = acc.samples.len() < 2;
+    let mut excerpt: Vec<String> = vec![];
 
     for _step in 0..opts.steps {
         let c = r.below(100);
@@ -142,6 +144,9 @@ pub fn chaos_case(ctx: &Ctx, case: u64, acc: &mut Acc, opts: &ChaosOpts) -> Resu
             st.exact_deliveries += 1;
         }
         peers[who].watch.observe(&rec, acc)?;
+        if want_sample && excerpt.len() < 10 && (!rec.evs.is_empty() || excerpt.len() < 3) {
+            excerpt.push(format!("[{:?}] {}", before, rec.short()));
+        }
         if rec.post.id != before {
             st.identity_changes += 1;
         }
@@ -185,6 +190,9 @@ pub fn chaos_case(ctx: &Ctx, case: u64, acc: &mut Acc, opts: &ChaosOpts) -> Resu
         }
     }
     let _ = Renew::None;
+    if want_sample {
+        acc.sample(|| serde_json::json!({"workload": "chaos", "case": case, "instances": n, "codec": format!("{codec:?}"), "config": format!("{cfg:?}"), "first_calls_with_effects": excerpt, "stats": format!("{st:?}")}));
+    }
     Ok(st)
 }
 
@@ -205,6 +213,5 @@ pub fn run_with(
     if interesting(&st) {
         acc.nontrivial(crate::util::fp(&(case, st.calls, st.sends, st.timers, st.identity_changes)));
     }
-    acc.sample(|| serde_json::json!({"workload": "chaos", "case": case, "stats": format!("{st:?}")}));
     Ok(())
 }
